@@ -55,6 +55,9 @@ structure Flags (a b : St) : Prop where
   decoFrame : ∀ d, (a.deco d).state = .onStack → b.deco d = a.deco d
   decoBal : ∀ d, ((b.deco d).state = .onStack ↔ (a.deco d).state = .onStack)
   decoMono : ∀ d, (a.deco d).state = .called → (b.deco d).state = .called
+  /-- nodes that do not exist are not executed -/
+  range : ∀ l, b.hist = a.hist ++ l →
+    (∀ n, a.ctors.length ≤ n → okExits (.ctor n) l = 0) ∧ (∀ d, a.decos.length ≤ d → okExits (.deco d) l = 0)
 
 theorem Flags.refl (a : St) : Flags a a where
   reg := RegFrame.refl a
@@ -67,6 +70,12 @@ theorem Flags.refl (a : St) : Flags a a where
   decoFrame _ _ := rfl
   decoBal _ := Iff.rfl
   decoMono _ h := h
+  range l hl := by
+    have : l = [] := by
+      have := List.append_cancel_left (as := a.hist) (bs := l) (cs := []) (by simpa using hl.symm)
+      exact this
+    subst this
+    exact ⟨fun _ _ => rfl, fun _ _ => rfl⟩
 
 theorem Flags.trans {a b c : St} (h1 : Flags a b) (h2 : Flags b c) : Flags a c where
   reg := h1.reg.trans h2.reg
@@ -119,6 +128,20 @@ theorem Flags.trans {a b c : St} (h1 : Flags a b) (h2 : Flags b c) : Flags a c w
     rw [h2.decoFrame d this, e]
   decoBal d := (h2.decoBal d).trans (h1.decoBal d)
   decoMono d h := h2.decoMono d (h1.decoMono d h)
+  range l hl := by
+    obtain ⟨l1, hh1, _, _, _⟩ := h1.ext
+    obtain ⟨l2, hh2, _, _, _⟩ := h2.ext
+    have : l = l1 ++ l2 := by
+      apply List.append_cancel_left (as := a.hist)
+      rw [← hl, hh2, hh1, List.append_assoc]
+    subst this
+    obtain ⟨r1, r1'⟩ := h1.range l1 hh1
+    obtain ⟨r2, r2'⟩ := h2.range l2 hh2
+    have ec := h1.reg.2.2.2.1
+    have ed := h1.reg.2.2.2.2.2.1
+    constructor
+    · intro n hn; rw [okExits_append, r1 n hn, r2 n (by omega)]
+    · intro d hd; rw [okExits_append, r1' d hd, r2' d (by omega)]
 
 end Dig
 
@@ -349,7 +372,7 @@ theorem ctor_bracket (n : Nat) (st s3 s4 : St) (hn : n < st.ctors.length)
     · simp [h]
   obtain ⟨l1, hh1, hl1, hc1, hd1⟩ := h1.ext
   obtain ⟨lt, hht, hlt, hwt, hnt, hct⟩ := h2.ext
-  refine ⟨?_, ⟨l1 ++ lt, ?_, ?_, ?_, ?_⟩, ?_, ?_, ?_, ?_, ?_, ?_⟩
+  refine ⟨?_, ⟨l1 ++ lt, ?_, ?_, ?_, ?_⟩, ?_, ?_, ?_, ?_, ?_, ?_, ?_⟩
   · exact (regFrame_modCtor st n (fun x => { x with onStack := true }) (fun _ => ⟨rfl, rfl, rfl, rfl, rfl, rfl, rfl⟩)).trans
       (h1.reg.trans (h2.reg.trans
         (regFrame_modCtor s4 n (fun x => { x with onStack := false }) (fun _ => ⟨rfl, rfl, rfl, rfl, rfl, rfl, rfl⟩))))
@@ -423,6 +446,21 @@ theorem ctor_bracket (n : Nat) (st s3 s4 : St) (hn : n < st.ctors.length)
     have : s4.deco d = s3.deco d := by simp [St.deco, h2.decos]
     rw [this]
     exact h1.decoMono d (by rw [modCtor_deco]; exact hd)
+  · -- range
+    intro l hl
+    have : l = l1 ++ lt := by
+      apply List.append_cancel_left (as := st.hist)
+      rw [← hl]
+      show s4.hist = _
+      rw [hht, hh1, List.append_assoc]; rfl
+    subst this
+    obtain ⟨r1, r1'⟩ := h1.range l1 hh1
+    constructor
+    · intro m hm
+      have hmn : m ≠ n := by omega
+      rw [okExits_append, r1 m (by simpa [St.modCtor] using hm), hwt _ (by intro h; injection h with h; exact hmn h)]
+    · intro d hd
+      rw [okExits_append, r1' d hd, hwt _ (by intro h; cases h)]
 
 end Dig
 
@@ -453,7 +491,7 @@ theorem deco_bracket (d : Nat) (st s3 s4 : St) (hd : d < st.decos.length)
   have hc4 : ∀ n, s4.ctor n = s3.ctor n := fun n => by simp [St.ctor, h2.ctors]
   obtain ⟨l1, hh1, hl1, hc1, hd1⟩ := h1.ext
   obtain ⟨lt, hht, hlt, hwt, hnt, hct⟩ := h2.ext
-  refine ⟨?_, ⟨l1 ++ lt, ?_, ?_, ?_, ?_⟩, ?_, ?_, ?_, ?_, ?_, ?_⟩
+  refine ⟨?_, ⟨l1 ++ lt, ?_, ?_, ?_, ?_⟩, ?_, ?_, ?_, ?_, ?_, ?_, ?_⟩
   · exact (regFrame_modDeco st d (fun x => { x with state := .onStack }) (fun _ => ⟨rfl, rfl, rfl, rfl, rfl⟩)).trans
       (h1.reg.trans (h2.reg.trans
         (regFrame_modDeco s4 d (fun x => if x.state == .called then x else { x with state := .ready })
@@ -527,6 +565,21 @@ theorem deco_bracket (d : Nat) (st s3 s4 : St) (hd : d < st.decos.length)
     rw [h5]; simp only [hmd, if_false]
     rw [h2.others m (fun h => hmd h.symm)]
     exact h1.decoMono m (by rw [ha1]; simp [hmd, hm])
+  · -- range
+    intro l hl
+    have : l = l1 ++ lt := by
+      apply List.append_cancel_left (as := st.hist)
+      rw [← hl]
+      show s4.hist = _
+      rw [hht, hh1, List.append_assoc]; rfl
+    subst this
+    obtain ⟨r1, r1'⟩ := h1.range l1 hh1
+    constructor
+    · intro n hn
+      rw [okExits_append, r1 n hn, hwt _ (by intro h; cases h)]
+    · intro m hm
+      have hmd : m ≠ d := by omega
+      rw [okExits_append, r1' m (by simpa [St.modDeco] using hm), hwt _ (by intro h; injection h with h; exact hmd h)]
 
 end Dig
 
